@@ -2,7 +2,7 @@
 From AF Require Import Lib.Bytes Lib.Path Lib.Ops Gen.Consts Model.MemFile Model.MemFs Model.WfOps Model.Union Model.Cow
   Model.Cache Proofs.MemFsBasics Proofs.MemFsPath Proofs.MemFsWF Proofs.MemFsStep Proofs.MemFsInv Proofs.MemFsRename
   Proofs.CacheProof Proofs.CacheReady Proofs.CacheInv Proofs.CacheFrames Proofs.CacheHandles Proofs.CacheInvOps Proofs.CacheCopy
-  Proofs.CacheInvCopy.
+  Proofs.CacheInvCopy Proofs.MemFsRenameGen.
 Local Open Scope Z_scope.
 
 (* ---------- well-formedness of a call depends on the path map and the kinds of the nodes only ---------- *)
@@ -31,3 +31,294 @@ Proof.
   destruct o; cbn [WfOps.wf_op]; rewrite ?(kind_same_kind s s' _ K), ?(kind_same_lookup s s' _ K), ?ks_is_dir, ?ks_nfp, ?ks_prefixes, ?ks_has_kids; reflexivity.
 Qed.
 End KindSame.
+
+(* ---------- the call on the base, then on the layer ---------- *)
+(* [stop_of r]: cache_both returns here (an error or a panic of the base) *)
+Definition stop_of (r : res) : option res :=
+  match r with RPanic => Some RPanic | _ => match res_err r with Some er => Some (RErr er) | None => None end end.
+
+(* Chmod / Chown / Chtimes: each side on its own keeps the invariant *)
+Lemma cinv_attr_base sb sl tbl phi o : CInvP sb sl tbl phi -> attr_op o = true -> exists phi', CInvP (fst (m_step sb o)) sl tbl phi'.
+Proof.
+  intros [T B] Ha. destruct (attr_step sb o Ha) as (F & D & Hh & W).
+  destruct (cinv_frames sb sl tbl phi (fst (m_step sb o)) sl Some (conj T B) (W (ti_wfb _ _ _ T)) (ti_wfl _ _ _ T) F (frame_refl sl) D) as (phi' & C & _).
+  - now apply dkeep_view.
+  - intros i h H. now rewrite Hh.
+  - apply hkeep_refl.
+  - intros k' rl Hk Hf. exfalso. exact (no_fresh_of_lookup sl sl (ti_wfl _ _ _ T) (fun _ => eq_refl) k' rl Hk Hf).
+  - now exists phi'.
+Qed.
+Lemma cinv_attr_layer sb sl tbl phi o : CInvP sb sl tbl phi -> attr_op o = true -> exists phi', CInvP sb (fst (m_step sl o)) tbl phi'.
+Proof.
+  intros [T B] Ha. destruct (attr_step sl o Ha) as (F & D & Hh & W).
+  destruct (cinv_frames sb sl tbl phi sb (fst (m_step sl o)) Some (conj T B) (ti_wfb _ _ _ T) (W (ti_wfl _ _ _ T)) (frame_refl sb) F) as (phi' & C & _).
+  - now apply dkeep_view.
+  - exact D.
+  - apply hkeep_refl.
+  - intros i h H. now rewrite Hh.
+  - intros k' rl Hk Hf. exfalso. exact (no_fresh_of_lookup sl _ (ti_wfl _ _ _ T) (fun k => attr_lookup sl o k Ha) k' rl Hk Hf).
+  - now exists phi'.
+Qed.
+
+(* Remove: on both sides; on the base alone when the layer does not hold the name *)
+Lemma wf_remove_parts sb p : WfOps.wf_op sb (Remove p) = true -> wf_name p = true /\ normalize_path p <> s_slash.
+Proof.
+  cbn [WfOps.wf_op]. intros H. apply andb_true_iff in H as [H _]. apply andb_true_iff in H as [H1 H2]. split; [exact H1|].
+  apply negb_true_iff, beqb_neq in H2. exact H2.
+Qed.
+
+Lemma remove_layer_wf sb sl phi p : TreeShape sb sl phi -> WfOps.wf_op sb (Remove p) = true -> WF (fst (m_step sl (Remove p))).
+Proof.
+  intros T Hwf. destruct (wf_remove_parts sb p Hwf) as [Hw Hr]. pose proof (ts_wfl _ _ _ T) as Wl.
+  destruct (lookup sl (normalize_path p)) as [rl|] eqn:Hl.
+  - apply WF_step; [exact Wl|]. cbn [WfOps.wf_op] in *. apply andb_true_iff in Hwf as [H0 Hk]. rewrite H0. cbn [andb].
+    destruct (kind_at sl (normalize_path p)) as [b|] eqn:Ek.
+    + rewrite (layer_kind_base sb sl phi T _ b Ek) in Hk. destruct b; [|reflexivity].
+      apply negb_true_iff. apply negb_true_iff in Hk. destruct (has_kids sl (normalize_path p)) eqn:E; [|reflexivity].
+      now rewrite (has_kids_layer_base sb sl phi T _ E) in Hk.
+    + exfalso. unfold kind_at in Ek. rewrite Hl in Ek. destruct (GWF_lookup_node _ _ _ _ _ _ Wl Hl) as (n & Hn). rewrite Hn in Ek. discriminate.
+  - destruct (remove_step sl p Wl Hw Hr) as (_ & _ & _ & Hb & _). rewrite (Hb Hl). now apply WF_bump.
+Qed.
+
+Lemma cinv_remove_both sb sl tbl phi p :
+  CInvP sb sl tbl phi -> WfOps.wf_op sb (Remove p) = true ->
+  exists phi', CInvP (fst (m_step sb (Remove p))) (fst (m_step sl (Remove p))) tbl phi'.
+Proof.
+  intros [T B] Hwf. destruct (wf_remove_parts sb p Hwf) as [Hw Hr].
+  pose proof (ti_wfb _ _ _ T) as Wb. pose proof (ti_wfl _ _ _ T) as Wl.
+  destruct (remove_step sb p Wb Hw Hr) as (Fb & Db & Hhb & _). destruct (remove_step sl p Wl Hw Hr) as (Fl & Dl & Hhl & _).
+  destruct (cinv_frames sb sl tbl phi _ _ _ (conj T B) (WF_step sb _ Wb Hwf) (remove_layer_wf sb sl phi p (TreeInv_shape _ _ _ T) Hwf) Fb Fl Db Dl) as (phi' & C & _).
+  - intros i h H. now rewrite Hhb.
+  - intros i h H. now rewrite Hhl.
+  - intros k' rl Hk Hf. exfalso.
+    exact (no_fresh_of_olookup (rho_del (normalize_path p)) sl _ (WF_bound_ok sl Wl) (fun k => remove_lookup sl p k Wl Hw Hr) k' rl Hk Hf).
+  - now exists phi'.
+Qed.
+
+Lemma cinv_remove_base_only sb sl tbl phi p :
+  CInvP sb sl tbl phi -> WfOps.wf_op sb (Remove p) = true -> lookup sl (normalize_path p) = None ->
+  exists phi', CInvP (fst (m_step sb (Remove p))) sl tbl phi'.
+Proof.
+  intros [T B] Hwf Hl. destruct (wf_remove_parts sb p Hwf) as [Hw Hr].
+  pose proof (ti_wfb _ _ _ T) as Wb. pose proof (ti_wfl _ _ _ T) as Wl.
+  destruct (remove_step sb p Wb Hw Hr) as (Fb & Db & Hhb & _).
+  assert (Fl : Frame (rho_del (normalize_path p)) sl sl).
+  { eapply frame_ext_lookup; [|apply frame_refl]. intros k. unfold rho_del. destruct (beqb (normalize_path p) k) eqn:E; [|reflexivity].
+    apply beqb_eq in E. subst k. cbn [olookup]. exact Hl. }
+  destruct (cinv_frames sb sl tbl phi _ sl _ (conj T B) (WF_step sb _ Wb Hwf) Wl Fb Fl Db) as (phi' & C & _).
+  - now apply dkeep_view.
+  - intros i h H. now rewrite Hhb.
+  - apply hkeep_refl.
+  - intros k' rl Hk Hf. exfalso. exact (no_fresh_of_lookup sl sl Wl (fun _ => eq_refl) k' rl Hk Hf).
+  - now exists phi'.
+Qed.
+
+(* RemoveAll on both sides *)
+Lemma wf_removeall_parts sb p : WfOps.wf_op sb (RemoveAll p) = true ->
+  wf_name p = true /\ normalize_path p <> s_slash /\ no_file_prefix sb (normalize_path p) = true.
+Proof.
+  cbn [WfOps.wf_op]. intros H. apply andb_true_iff in H as [H H3]. apply andb_true_iff in H as [H1 H2]. split; [exact H1|].
+  apply negb_true_iff, beqb_neq in H2. now split.
+Qed.
+
+Lemma cinv_removeall_both sb sl tbl phi p :
+  CInvP sb sl tbl phi -> WfOps.wf_op sb (RemoveAll p) = true ->
+  exists phi', CInvP (fst (m_step sb (RemoveAll p))) (fst (m_step sl (RemoveAll p))) tbl phi'.
+Proof.
+  intros [T B] Hwf. destruct (wf_removeall_parts sb p Hwf) as (Hw & Hr & Hn).
+  pose proof (ti_wfb _ _ _ T) as Wb. pose proof (ti_wfl _ _ _ T) as Wl.
+  destruct (removeall_step sb p Wb Hw Hr) as (Fb & Db & Hhb & _). destruct (removeall_step sl p Wl Hw Hr) as (Fl & Dl & Hhl & _).
+  assert (Hwfl : WfOps.wf_op sl (RemoveAll p) = true).
+  { cbn [WfOps.wf_op]. rewrite Hw. assert (E : beqb (normalize_path p) s_slash = false) by now apply beqb_neq. rewrite E. cbn [andb negb].
+    exact (nfp_base_layer sb sl phi (TreeInv_shape _ _ _ T) _ Hn). }
+  destruct (cinv_frames sb sl tbl phi _ _ _ (conj T B) (WF_step sb _ Wb Hwf) (WF_step sl _ Wl Hwfl) Fb Fl Db Dl) as (phi' & C & _).
+  - intros i h H. now rewrite Hhb.
+  - intros i h H. now rewrite Hhl.
+  - intros k' rl Hk Hf. exfalso.
+    exact (no_fresh_of_olookup (rho_prune (normalize_path p)) sl _ (WF_bound_ok sl Wl) (fun k => removeall_lookup sl p k Wl Hw Hr) k' rl Hk Hf).
+  - now exists phi'.
+Qed.
+
+(* Rename on both sides (the layer holds the source whenever the base does: CacheOnReadFs copies it first) *)
+Lemma wf_rename_parts sb p q : WfOps.wf_op sb (Rename p q) = true ->
+  wf_name p = true /\ wf_name q = true /\ normalize_path p <> s_slash.
+Proof.
+  cbn [WfOps.wf_op]. intros H. apply andb_true_iff in H as [H _]. apply andb_true_iff in H as [H H3]. apply andb_true_iff in H as [H1 H2].
+  apply negb_true_iff, beqb_neq in H3. auto.
+Qed.
+
+Lemma cinv_rename_both sb sl tbl phi p q :
+  CInvP sb sl tbl phi -> WfOps.wf_op sb (Rename p q) = true ->
+  (lookup sb (normalize_path p) <> None -> lookup sl (normalize_path p) <> None) ->
+  exists phi', CInvP (fst (m_step sb (Rename p q))) (fst (m_step sl (Rename p q))) tbl phi'.
+Proof.
+  intros [T B] Hwf Hhas. destruct (wf_rename_parts sb p q Hwf) as (Hwp & Hwq & Hor).
+  set (old := normalize_path p) in *. set (new := normalize_path q) in *.
+  pose proof (ti_wfb _ _ _ T) as Wb. pose proof (ti_wfl _ _ _ T) as Wl. pose proof (TreeInv_shape _ _ _ T) as TS.
+  destruct (lookup sb old) as [fb|] eqn:Hlb.
+  2:{ (* the source is missing on both sides *)
+      rewrite (rename_noop sb p q) by (left; exact Hlb).
+      rewrite (rename_noop sl p q) by (left; exact (base_none_layer_none sb sl phi TS old Hlb)).
+      exists phi. apply (CInvP_view sb sl tbl phi); [apply same3_bump | apply same3_bump | now split]. }
+  destruct (str_eq_dec old new) as [Eon|Eon].
+  { rewrite (rename_noop sb p q) by (right; exact Eon). rewrite (rename_noop sl p q) by (right; exact Eon).
+    exists phi. apply (CInvP_view sb sl tbl phi); [apply same3_bump | apply same3_bump | now split]. }
+  destruct (lookup sl old) as [fl|] eqn:Hll; [|exfalso; apply Hhas; congruence].
+  destruct (rename_step_wf sb p q fb Wb Hwf Hlb Eon) as (_ & Wb' & Mb). fold old new in Mb.
+  destruct (rename_pre_facts sb p q fb Wb Hwf Hlb Eon) as (Ho & Hn & _ & Hnr & Hb1 & Hb2 & Hfreeb). fold old new in Ho, Hn, Hnr, Hb1, Hb2, Hfreeb.
+  (* every proper ancestor of the target is a directory of the base; no regular file on the way *)
+  assert (Hanc : forall a, canon a -> below a new = true -> exists ra na, lookup sb a = Some ra /\ get_node sb ra = Some na /\ ndir na = true).
+  { intros a Ha Hba. pose proof Hwf as Hwf'. cbn [WfOps.wf_op] in Hwf'. fold old new in Hwf'.
+    apply andb_true_iff in Hwf' as [_ Hk]. destruct (GWF_lookup_node _ _ _ _ _ _ Wb Hlb) as (nfb & Hnfb).
+    assert (Eko : kind_at sb old = Some (ndir nfb)) by (unfold kind_at; now rewrite Hlb, Hnfb). rewrite Eko in Hk.
+    assert (Ebn : beqb old new = false) by now apply beqb_neq. rewrite Ebn, Hb1 in Hk. cbn [orb negb andb] in Hk.
+    destruct (kind_at sb new) as [d2|] eqn:Ekn.
+    - apply kind_at_some in Ekn as (rn & nn & Hln & _). exact (anc_live sb new rn a Wb Hln Ha Hba).
+    - apply is_dir_at_true in Hk as (rp & np & Hlp & Hnp & Hdp). destruct (below_inv a new Ha Hn Hba) as [->|Hbb]; [now exists rp, np|].
+      exact (anc_live sb (par new) rp a Wb Hlp Ha Hbb). }
+  assert (Hnfpb : no_file_prefix sb new = true).
+  { unfold no_file_prefix. apply forallb_forall. intros [a ra] Hin. cbn [fst].
+    assert (Hla : lookup sb a = Some ra) by (apply in_aget; [exact (g_nodup _ _ _ _ Wb) | exact Hin]).
+    destruct (below a new) eqn:E; [|reflexivity]. cbn [andb].
+    destruct (Hanc a (g_canon _ _ _ _ Wb a ra Hla) E) as (r2 & n2 & Hl2 & Hn2 & Hd2). unfold is_file_at, kind_at. now rewrite Hl2, Hn2, Hd2. }
+  destruct (rename_step_gen sl p q fl Wl Hwp Hwq Hor Hnr Hll Eon Hb1 Hb2) as (_ & Wl' & Ml).
+  { intros k r Hk. destruct (layer_lookup_base sb sl phi TS k r Hk) as (rb & Hb). exact (Hfreeb k rb Hb). }
+  { exact (nfp_base_layer sb sl phi TS new Hnfpb). }
+  fold old new in Ml.
+  destruct (MovedG_frame old new sb _ (WF_bound_ok sb Wb) Mb) as [Fb Db]. destruct (MovedG_frame old new sl _ (WF_bound_ok sl Wl) Ml) as [Fl Dl].
+  destruct (cinv_frames sb sl tbl phi _ _ _ (conj T B) Wb' Wl' Fb Fl Db Dl) as (phi' & C & _).
+  - intros i h H. now rewrite (mg_handles _ _ _ _ Mb).
+  - intros i h H. now rewrite (mg_handles _ _ _ _ Ml).
+  - intros k' rl Hk Hf.
+    assert (Hold : forall k, lookup sl k = Some rl -> False).
+    { intros k Hkk. destruct (WF_bound_ok sl Wl k rl Hkk) as (x & Hx). exact (fresh_not_old sl rl x Hf Hx). }
+    destruct (under new k') eqn:En.
+    { exfalso. apply under_atbelow, atbelow_suffix in En as (rest & Hrest & ->).
+      rewrite <- (rw_app old new rest), (mg_sub _ _ _ _ Ml) in Hk by (apply atbelow_suffix; now exists rest). eauto. }
+    destruct (under old k') eqn:Eo.
+    { rewrite (mg_gone _ _ _ _ Ml) in Hk by (now apply under_atbelow). discriminate. }
+    assert (Hno : ~ atbelow old k') by (intros H; apply under_atbelow in H; congruence).
+    assert (Hnn : ~ atbelow new k') by (intros H; apply under_atbelow in H; congruence).
+    destruct (mg_rest _ _ _ _ Ml k' Hno Hnn) as [E|(E & Hbel & r2 & n2 & Hl2 & _ & Hn2 & Hd2 & He2)]; [exfalso; rewrite E in Hk; eauto|].
+    rewrite Hk in Hl2. inversion Hl2; subst r2.
+    destruct (Hanc k' (g_canon _ _ _ _ Wl' k' rl Hk) Hbel) as (ra & na & Hla & Hna & Hda).
+    destruct (mg_nodes _ _ _ _ Mb ra na Hna) as (na' & Hna' & Hda' & Hea').
+    exists ra, n2, na'. split.
+    + destruct (mg_rest _ _ _ _ Mb k' Hno Hnn) as [E2|(E2 & _)]; [now rewrite E2 | congruence].
+    + split; [exact Hn2|]. split; [exact Hna'|]. split; [congruence|]. rewrite Hea', (ti_dirs _ _ _ T k' ra na Hla Hna Hda). exact He2.
+  - now exists phi'.
+Qed.
+
+(* ---------- the six mutators that go through cache_both ---------- *)
+Lemma both_op_wf_name sb o : both_op o = true -> WfOps.wf_op sb o = true -> wf_name (op_path o) = true.
+Proof.
+  destruct o; try discriminate; cbn [WfOps.wf_op op_path]; intros _ H; repeat (apply andb_true_iff in H as [H _]); exact H.
+Qed.
+
+Lemma both_op_cases o : both_op o = true ->
+  attr_op o = true \/ (exists p, o = Remove p) \/ (exists p, o = RemoveAll p) \/ (exists p q, o = Rename p q).
+Proof. destruct o; try discriminate; intros _; eauto 6. Qed.
+
+(* the base refuses: nothing has changed *)
+Lemma mut_base_fail sb sl tbl phi o :
+  CInvP sb sl tbl phi -> both_op o = true -> WfOps.wf_op sb o = true -> stop_of (snd (m_step sb o)) <> None ->
+  exists phi', CInvP (fst (m_step sb o)) sl tbl phi'.
+Proof.
+  intros C Hb Hwf Hstop. pose proof (ti_wfb _ _ _ (proj1 C)) as Wb.
+  destruct (both_op_cases o Hb) as [Ha|[(p & ->)|[(p & ->)|(p & q & ->)]]].
+  - exact (cinv_attr_base sb sl tbl phi o C Ha).
+  - destruct (wf_remove_parts sb p Hwf) as [Hw Hr]. destruct (remove_step sb p Wb Hw Hr) as (_ & _ & _ & Hnone & Hsome).
+    destruct (lookup sb (normalize_path p)) as [f|] eqn:Hl.
+    + exfalso. apply Hstop. rewrite Hsome by congruence. reflexivity.
+    + rewrite (Hnone eq_refl). exists phi. apply (CInvP_view sb sl tbl phi); [apply same3_bump | apply same3_refl | exact C].
+  - destruct (wf_removeall_parts sb p Hwf) as (Hw & Hr & _). destruct (removeall_step sb p Wb Hw Hr) as (_ & _ & _ & Hres).
+    exfalso. apply Hstop. rewrite Hres. reflexivity.
+  - destruct (lookup sb (normalize_path p)) as [f|] eqn:Hl.
+    + exfalso. apply Hstop. destruct (str_eq_dec (normalize_path p) (normalize_path q)) as [E|E].
+      * rewrite m_step_bump. cbn [snd m_step_raw]. unfold m_rename. rewrite Hl, E, beqb_refl. reflexivity.
+      * destruct (rename_step_wf sb p q f Wb Hwf Hl E) as (Hres & _). rewrite Hres. reflexivity.
+    + rewrite (rename_noop sb p q) by (now left). exists phi. apply (CInvP_view sb sl tbl phi); [apply same3_bump | apply same3_refl | exact C].
+Qed.
+
+(* the base accepts: the same call on the layer *)
+Lemma mut_both sb sl tbl phi o :
+  CInvP sb sl tbl phi -> both_op o = true -> WfOps.wf_op sb o = true ->
+  (copies_first o = true -> lookup sb (normalize_path (op_path o)) <> None -> lookup sl (normalize_path (op_path o)) <> None) ->
+  exists phi', CInvP (fst (m_step sb o)) (fst (m_step sl o)) tbl phi'.
+Proof.
+  intros C Hb Hwf Hhas. destruct (both_op_cases o Hb) as [Ha|[(p & ->)|[(p & ->)|(p & q & ->)]]].
+  - destruct (cinv_attr_base sb sl tbl phi o C Ha) as (phi1 & C1). exact (cinv_attr_layer _ sl tbl phi1 o C1 Ha).
+  - exact (cinv_remove_both sb sl tbl phi p C Hwf).
+  - exact (cinv_removeall_both sb sl tbl phi p C Hwf).
+  - exact (cinv_rename_both sb sl tbl phi p q C Hwf (Hhas eq_refl)).
+Qed.
+
+Lemma same3_kind_same s s' : same3 s s' -> kind_same s s'.
+Proof. intros H. apply kind_same_of_same2. now apply same3_2. Qed.
+
+Theorem cinv_cache_both dur now sb sl tbl o :
+  CInv (sb, sl, tbl) -> both_op o = true -> WfOps.wf_op sb o = true ->
+  CInv (fst (cache_both m_step m_step dur now sb sl tbl (op_path o) o (copies_first o) (base_only_switch o))).
+Proof.
+  intros (phi & C) Hb Hwf. pose proof (both_op_wf_name sb o Hb Hwf) as Hw.
+  destruct (status_mem dur now sb sl phi (op_path o) (TreeInv_shape _ _ _ (proj1 C))) as (sb1 & sl1 & cs & fi & Est & Sb & Sl & Hcs).
+  pose proof (CInvP_view sb sl tbl phi sb1 sl1 Sb Sl C) as C1.
+  assert (Hwf1 : WfOps.wf_op sb1 o = true) by (rewrite (ks_wf_op sb sb1 (same3_kind_same _ _ Sb)); exact Hwf).
+  unfold cache_both. rewrite Est.
+  (* the call on the base state [x] paired with the layer state [y], then on the layer *)
+  assert (Hrun : forall x y phi0, CInvP x y tbl phi0 -> WfOps.wf_op x o = true ->
+            (copies_first o = true -> lookup x (normalize_path (op_path o)) <> None -> lookup y (normalize_path (op_path o)) <> None) ->
+            CInv (fst (match (let '(sb2, r) := m_step x o in (sb2, y, stop_of r)) with
+                       | (sb2, sl2, Some r) => cret sb2 sl2 tbl r
+                       | (sb2, sl2, None) => let '(sl3, r) := m_step sl2 o in cret sb2 sl3 tbl r
+                       end))).
+  { intros x y phi0 C0 Hwf0 Hhas. destruct (m_step x o) as [sb2 r] eqn:Eb.
+    destruct (stop_of r) as [rr|] eqn:Es.
+    - cbn [fst cret]. destruct (mut_base_fail x y tbl phi0 o C0 Hb Hwf0) as (phi' & C'); [rewrite Eb; cbn [snd]; congruence|].
+      rewrite Eb in C'. now exists phi'.
+    - destruct (mut_both x y tbl phi0 o C0 Hb Hwf0 Hhas) as (phi' & C'). rewrite Eb in C'. cbn [fst] in C'.
+      destruct (m_step y o) as [sl3 r3]. cbn [fst cret] in *. now exists phi'. }
+  destruct cs.
+  - (* miss *)
+    destruct (base_only_switch o) eqn:Esw.
+    + (* Remove on a miss: the base only *)
+      assert (Ho : exists p, o = Remove p) by (destruct o; try discriminate Esw; eauto). destruct Ho as (p & ->). cbn [op_path] in *.
+      destruct (cinv_remove_base_only sb1 sl1 tbl phi p C1 Hwf1) as (phi' & C'); [rewrite (same3_lookup _ _ _ Sl); exact Hcs|].
+      destruct (m_step sb1 (Remove p)) as [sb2 r]. cbn [fst cret] in *. now exists phi'.
+    + destruct (copies_first o) eqn:Ecf.
+      * destruct (cinv_cache_copy sb1 sl1 tbl phi (op_path o) C1 Hw) as (sb2 & sl2 & oe & phi2 & Ecp & C2 & _ & Hks & Hok & _).
+        rewrite Ecp. destruct oe as [ce|]; [cbn [fst cret]; now exists phi2|].
+        destruct (Hok eq_refl) as [_ Hl2].
+        apply (Hrun sb2 sl2 phi2 C2); [rewrite (ks_wf_op sb1 sb2 Hks); exact Hwf1 | intros _ _; exact Hl2].
+      * apply (Hrun sb1 sl1 phi C1 Hwf1). intros H; discriminate H.
+  - (* stale *)
+    destruct Hcs as (rl & nl & f & Hl & _).
+    assert (Hl1 : lookup sl1 (normalize_path (op_path o)) <> None) by (rewrite (same3_lookup _ _ _ Sl); congruence).
+    destruct (copies_first o) eqn:Ecf.
+    + destruct (cinv_cache_copy sb1 sl1 tbl phi (op_path o) C1 Hw) as (sb2 & sl2 & oe & phi2 & Ecp & C2 & _ & Hks & Hok & Hsucc).
+      rewrite Ecp. destruct oe as [ce|].
+      * destruct (base_only_switch o); cbn [fst cret]; now exists phi2.
+      * destruct (Hok eq_refl) as [_ Hl2].
+        assert (Hgo : CInv (fst (match (let '(sb3, r) := m_step sb2 o in (sb3, sl2, stop_of r)) with
+                       | (sb3, sl3, Some r) => cret sb3 sl3 tbl r
+                       | (sb3, sl3, None) => let '(sl4, r) := m_step sl3 o in cret sb3 sl4 tbl r
+                       end))).
+        { apply (Hrun sb2 sl2 phi2 C2); [rewrite (ks_wf_op sb1 sb2 Hks); exact Hwf1 | intros _ _; exact Hl2]. }
+        destruct (base_only_switch o); exact Hgo.
+    + assert (Hgo : CInv (fst (match (let '(sb3, r) := m_step sb1 o in (sb3, sl1, stop_of r)) with
+                       | (sb3, sl3, Some r) => cret sb3 sl3 tbl r
+                       | (sb3, sl3, None) => let '(sl4, r) := m_step sl3 o in cret sb3 sl4 tbl r
+                       end))).
+      { apply (Hrun sb1 sl1 phi C1 Hwf1). intros H; discriminate H. }
+      destruct (base_only_switch o); exact Hgo.
+  - (* hit *)
+    destruct Hcs as (rl & nl & f & Hl & _).
+    assert (Hl1 : lookup sl1 (normalize_path (op_path o)) <> None) by (rewrite (same3_lookup _ _ _ Sl); congruence).
+    assert (Hgo : CInv (fst (match (let '(sb3, r) := m_step sb1 o in (sb3, sl1, stop_of r)) with
+                     | (sb3, sl3, Some r) => cret sb3 sl3 tbl r
+                     | (sb3, sl3, None) => let '(sl4, r) := m_step sl3 o in cret sb3 sl4 tbl r
+                     end))).
+    { apply (Hrun sb1 sl1 phi C1 Hwf1). intros _ _. exact Hl1. }
+    destruct (base_only_switch o); exact Hgo.
+  - destruct Hcs.
+Qed.
